@@ -181,7 +181,8 @@ def window_when_(
                 window.on_completed()
                 window = Subject()
                 observer.on_next(add_ref(window, r))
-                create_window_on_completed()
+                if not m.is_disposed:
+                    create_window_on_completed()
 
             m1 = SingleAssignmentDisposable()
             m.disposable = m1
